@@ -47,7 +47,7 @@ pub fn p_c11_pullback(nside: u32, x: f64, y: f64) {
 /// Cell-number based clauses (no libm in the oracle): centre of h hashes to h is decided in the plane by the solver; natively
 /// through the real proj / unproj. Order of centres; ring sizes follow from the strict order inside a ring.
 pub fn p_c11_order(nside: u32, r: u64) {
-  if !(nside >= 1 && nside <= (1u32 << 29) && r + 1 < c11_n_hash(nside)) { return; }
+  if !(nside >= 1 && nside <= (1u32 << 29) && r < c11_n_hash(nside) - 1) { return; }
   let (x0, y0) = hp::ring::center_of_projected_cell(nside, r);
   let (x1, y1) = hp::ring::center_of_projected_cell(nside, r + 1);
   assert!(x0 >= 0.0 && x0 < 8.0 && x1 >= 0.0 && x1 < 8.0 && y0 <= 2.0 && y1 >= -2.0, "C11: RING centre outside the projection domain");
